@@ -30,6 +30,16 @@ func srRegion(p []float64) (bias, k, m, area, dead, dt float64, ok bool) {
 	return
 }
 
+// srUnconvergedScope: an unconverged root search is a NEW failure for routing powers m ≥ 0.2 (none exists on the pinned code);
+// for smaller powers it is known finding KF-C11-StorageRouting-unconverged-small-power (20 iterations of halving + secant +
+// Newton contract the bracket by a factor ≈ (1−m) per iteration in log space only; Lean: root_not_converged_counterexample).
+func srUnconvergedScope(m float64) string {
+	if m < 0.2 {
+		return "StorageRouting:unconverged-small-power"
+	}
+	return "StorageRouting:unconverged"
+}
+
 func oracleStorageRouting(c *Ctx, id int, k *KCall, r *KResult, body string) {
 	bias, rk, m, area, dead, dt, ok := srRegion(k.P)
 	if !ok || !allFinite(k.In...) {
@@ -80,7 +90,7 @@ func oracleStorageRouting(c *Ctx, id int, k *KCall, r *KResult, body string) {
 			} else if q == 0 && bias > 0 && s > want {
 				scope = "StorageRouting:zero-outflow-storage"
 			} else if q == 0 && s > want {
-				scope = "StorageRouting:unconverged"
+				scope = srUnconvergedScope(m)
 			}
 			c.OracleFail(id, scope, fmt.Sprintf("step %d: water balance does not close: storage %v, but previous storage %v + (inflow %v + lateral %v − net evaporation %v − outflow %v)·%v = %v (difference %g, tolerance %g)",
 				t, s, prev, inflow[t], lateral[t], nef, q, dt, want, s-want, tol), body)
@@ -101,7 +111,7 @@ func oracleStorageRouting(c *Ctx, id int, k *KCall, r *KResult, body string) {
 			slack := 1e-11 * math.Max(math.Max(s, dead), 1)
 			c.Stats.Count("oracle:SQ-checked")
 			if s < lo-slack || s > hi+slack {
-				scope := "StorageRouting:unconverged"
+				scope := srUnconvergedScope(m)
 				if s > hi && lateral[t] > 0 && math.Abs(s-lateral[t]*dt) <= 1e-9*s+lim {
 					scope = "StorageRouting:full-drain-lateral"
 				}
